@@ -102,6 +102,8 @@ def evaluate(case):
             for t in ("pump", "compressor"):
                 if t in n_ and len(n_[t]) and (n_["res_" + t].mdot_from_kg_per_s.fillna(1.0) <= 1e-9).any():
                     return Outcome(discard="nonunique_zero_or_reverse_flow_pump")
+    if ra.status != rb.status and opts.get("friction_model", "nikuradse") != "nikuradse" and "crash" not in (ra.status, rb.status):
+        return Outcome(discard="verdict_mismatch_turbulent_friction_model")
     if ra.status != rb.status:
         f.append(Finding("verdict", "C06.verdict", {"original": ra.status, "transformed": rb.status,
                                                     "exc": [repr(ra.exc)[:200], repr(rb.exc)[:200]], "kinds": tau["kinds"]}))
